@@ -13,24 +13,30 @@ from ..sympath import enumerate_paths, PathEval
 
 EXPLANATION = (
     "Fan-out completeness: LoggerList overrides every public method of LoggerBase and each override is a loop over self.loggers that calls "
-    "the same-named method with every parameter of its own signature in the callee's positional order. Record / get agreement: on every "
+    "the same-named method with every parameter of its own signature in the callee's positional order; the loop (or an eagerly evaluated "
+    "comprehension) reaches every member: a break / return in the loop body, or a reduction that stops at the first true / false item "
+    "(any / all over a generator), is a path on which later members are skipped when the members' implementations can return such a "
+    "value (constants returned on some path; otherwise undecided). Record / get agreement: on every "
     "path (enumerated) record_stat of the in-memory and standard loggers appends exactly once to stats[key] and once to stats_loc[key] the "
     "tuple (episode, step, t) with the documented defaults, in the order of the X_KEYS table get_stat indexes. Counter ownership: "
     "_n_episodes / n_steps are written only by start_new_episode / stop_episode in all loggers. Checkpoint listing: the path is appended "
     "only after save and wait_until_finished on the same path (dominance). Cadence state: the Orbax logger updates last_step[key] on every "
     "path after evaluating the guard, saves at most once per record_epoch, and its guard is the documented wrap-or-gap predicate; the "
-    "standard logger increments epoch[key] exactly once before testing epoch % interval == 0. The arithmetic equivalence of the wrap-or-gap "
+    "standard logger increments epoch[key] exactly once before testing epoch % interval == 0. A cadence written as a lower bound on the "
+    "recorded step (save when step >= E(state)) whose state is advanced, on the save path, to a value that does not depend on the step is "
+    "a violation (dataflow fact: a record with a large step and its repetition both save); a bound that follows the step is not decided. "
+    "The arithmetic equivalence of the wrap-or-gap "
     "predicate with `a multiple of the interval was passed` is NOT decided (hand argument in DESIGN.md). A violation is reported only on "
     "positive evidence (a path witness, a wrong constant, a value built from the documented ingredients but combined differently); a "
     "construct the rules cannot read is reported as undecided."
 )
 TRUSTED = ["Orbax StandardCheckpointer.save / wait_until_finished", "list.append preserves recording order"]
 RULES = {
-    "R1-fan-out": "LoggerList overrides every LoggerBase method; each override forwards all its parameters, in order, to the same method of every member",
+    "R1-fan-out": "LoggerList overrides every LoggerBase method; each override forwards all its parameters, in order, to the same method of every member; no early exit / short-circuiting reduction skips later members",
     "R2-record-get": "record_stat appends value and (episode, step, t) exactly once per call on every path; defaults episode <- _n_episodes, step <- n_steps; tuple order == X_KEYS of get_stat",
     "R3-counters": "_n_episodes is written only by start_new_episode (+= 1), n_steps only by stop_episode (+= total_steps)",
     "R4-save-before-list": "checkpoint_path[key].append(p) is dominated by save(p, state) and wait_until_finished(); the state saved is unfiltered",
-    "R5-cadence": "Orbax: guard == (last % f > step % f) or (step - last >= f); last_step[key] = step on every path after the guard; one save per record; Standard: epoch[key] += 1 once, then epoch[key] % f == 0",
+    "R5-cadence": "Orbax: guard == (last % f > step % f) or (step - last >= f); last_step[key] = step on every path after the guard; one save per record; Standard: epoch[key] += 1 once, then epoch[key] % f == 0; a bound on the step must be advanced to a value that depends on the step",
 }
 
 LG = "rl_blox.logging.logger."
@@ -174,14 +180,19 @@ def _paths_lits(nf, cfg, mi, site, env, stops=None, max_paths=4000, before=None)
 
 # ---------------------------------------------------------------------------------------------------------------------------
 def _members_iter(nf, cfg, mi, site, n):
-    """What a loop ranges over: 'all' (self.loggers, possibly re-packed by list / tuple / iter / copy / [:]), 'part' (a proper slice
-    of self.loggers), None (something else).  A form that involves the members in another way is undecided."""
-    if nf.poly(n.ast.iter, Scope(cfg, mi, {}, site), n.id).canon() == "self.loggers":
+    """What a loop ranges over (see _members_of)."""
+    return _members_of(nf, cfg, mi, site, n.id, n.ast.iter)
+
+
+def _members_of(nf, cfg, mi, site, nid, it):
+    """What the iterable ``it`` (read at node nid) ranges over: 'all' (self.loggers, possibly re-packed by list / tuple / iter / reversed /
+    copy / [:]), 'part' (a proper slice of self.loggers), None (something else).  A form that involves the members in another way is undecided."""
+    if nf.poly(it, Scope(cfg, mi, {}, site), nid).canon() == "self.loggers":
         return "all"
-    e, at = _alias_value(cfg, n.id, n.ast.iter)
+    e, at = _alias_value(cfg, nid, it)
     part = False
     for _ in range(6):
-        if isinstance(e, ast.Call) and isinstance(e.func, ast.Name) and e.func.id in ("list", "tuple", "iter") and len(e.args) == 1 and not e.keywords and not isinstance(e.args[0], ast.Starred):
+        if isinstance(e, ast.Call) and isinstance(e.func, ast.Name) and e.func.id in ("list", "tuple", "iter", "reversed") and len(e.args) == 1 and not e.keywords and not isinstance(e.args[0], ast.Starred):
             e, at = _alias_value(cfg, at, e.args[0])
         elif isinstance(e, ast.Call) and isinstance(e.func, ast.Attribute) and e.func.attr == "copy" and not e.args and not e.keywords:
             e, at = _alias_value(cfg, at, e.func.value)
@@ -194,9 +205,179 @@ def _members_iter(nf, cfg, mi, site, n):
             break
     if _self_attr(e, ("loggers",)):
         return "part" if part else "all"
-    if _mentions(n.ast.iter, ("loggers",)) or _mentions(e, ("loggers",)):
-        raise AnalysisError(f"{site}: loop over `{short(n.ast.iter, 60)}` involves the members in a way that is not read (unrecognised form)")
+    if _mentions(it, ("loggers",)) or _mentions(e, ("loggers",)):
+        raise AnalysisError(f"{site}: loop over `{short(it, 60)}` involves the members in a way that is not read (unrecognised form)")
     return None
+
+
+_EAGER = {"list", "tuple", "set", "frozenset", "sorted"}      # consumers that exhaust a generator whatever its items are
+_ALWAYS_EVALUATED = (ast.Call, ast.keyword, ast.Starred, ast.Tuple, ast.List, ast.Set, ast.Attribute, ast.Subscript, ast.UnaryOp, ast.BinOp,
+                     ast.Compare, ast.JoinedStr, ast.FormattedValue, ast.Expr, ast.Assign, ast.AnnAssign, ast.Return)
+
+
+def _member_comprehensions(nf, cfg, mi, site, name):
+    """[(node, comprehension, member call, 'all' | 'part', consumer)] for the comprehensions / generator expressions over the members
+    whose element is the call `<item>.<name>(...)`.  consumer: 'eager' (a list / set display, or a generator handed to a consumer that
+    exhausts it), 'any' / 'all' (a reduction that stops at the first true / false item).  Everything else is undecided."""
+    out = []
+    for n in cfg.nodes:
+        if n.ast is None or n.kind in ("entry", "exit", "def"):
+            continue
+        roots = [n.ast] if n.kind == "stmt" else [n.ast.test] if n.kind == "test" and hasattr(n.ast, "test") else [n.ast.iter] if n.kind == "for" else [i.context_expr for i in n.ast.items] if n.kind == "with" else []
+        for r in roots:
+            for comp in ast.walk(r):
+                if not isinstance(comp, (ast.ListComp, ast.SetComp, ast.GeneratorExp, ast.DictComp)):
+                    continue
+                kinds = [_members_of(nf, cfg, mi, site, n.id, g.iter) for g in comp.generators]
+                if not any(kinds):
+                    continue
+                g = comp.generators[0]
+                elt = getattr(comp, "elt", None)
+                calls = [c for c in ast.walk(comp) if isinstance(c, ast.Call) and isinstance(c.func, ast.Attribute) and c.func.attr == name and isinstance(c.func.value, ast.Name) and isinstance(g.target, ast.Name) and c.func.value.id == g.target.id]
+                if not calls and isinstance(g.target, ast.Name) and len(comp.generators) == 1:
+                    continue     # a comprehension over the members that does not call this method (it computes something else)
+                if len(comp.generators) != 1 or g.ifs or g.is_async or not isinstance(g.target, ast.Name) or len(calls) != 1 or calls[0] is not elt:
+                    raise AnalysisError(f"{site}: `{short(comp, 70)}` reaches the members through a comprehension that is not read (unrecognised form)")
+                if n.kind != "stmt" or cfg.control_deps(n.id):
+                    raise AnalysisError(f"{site}: the comprehension over the members is conditional or nested (unrecognised form)")
+                consumer = "eager"
+                x, par = comp, getattr(comp, "_parent", None)
+                if isinstance(comp, ast.GeneratorExp):
+                    consumer = None
+                    if isinstance(par, ast.Call) and isinstance(par.func, ast.Name) and len(par.args) == 1 and par.args[0] is comp and not par.keywords:
+                        consumer = "eager" if par.func.id in _EAGER else par.func.id if par.func.id in ("any", "all") else None
+                    if consumer is None:
+                        raise AnalysisError(f"{site}: it is not known how far `{short(par if par is not None else comp, 70)}` consumes the generator over the members (unrecognised form)")
+                while par is not None and x is not n.ast:      # the comprehension itself is evaluated whenever the statement is
+                    if not isinstance(par, _ALWAYS_EVALUATED):
+                        raise AnalysisError(f"{site}: the comprehension over the members is part of `{short(par, 60)}` (unrecognised form)")
+                    x, par = par, getattr(par, "_parent", None)
+                if x is not n.ast:
+                    raise AnalysisError(f"{site}: the comprehension over the members is not placed in its statement (unrecognised form)")
+                out.append((n, comp, calls[0], kinds[0], consumer))
+    return out
+
+
+def _member_results(repo, nf, name):
+    """{'truthy' | 'falsy' | 'unknown': witness text}: what the implementations of interface method ``name`` (all repository loggers but
+    the list itself) return on some path.  A path without a return value / with `return None` / a false constant is 'falsy', a path that
+    returns a true constant is 'truthy' (both are path witnesses); any other value is 'unknown'."""
+    LL = LG + "LoggerList"
+    kinds, seen = {}, set()
+    for cq in [BASE] + repo.subclasses(BASE):
+        if cq == LL or LL in repo.mro(cq):
+            continue
+        m = repo.method(cq, name)
+        if m is None or id(m[1]) in seen:
+            continue
+        seen.add(id(m[1]))
+        fn = m[1]
+        if any(dotted(d) in ("abc.abstractmethod", "abstractmethod") for d in fn.decorator_list):
+            continue     # never the implementation of a member
+        where = f"{m[0].rsplit('.', 1)[-1]}.{name}"
+        if any(isinstance(x, (ast.Yield, ast.YieldFrom, ast.Await)) for x in ast.walk(fn)) or any(dotted(d) == "property" for d in fn.decorator_list):
+            kinds.setdefault("unknown", where)
+            continue
+        mi = fn._module = repo.cls(m[0])._module
+        cfg = nf.cfg_of(fn)
+        rets = {}
+
+        def before(pe, nid, cfg=cfg, rets=rets):
+            s = cfg.nodes[nid].ast
+            if cfg.nodes[nid].kind == "stmt" and isinstance(s, ast.Return):
+                rets[id(pe)] = (pe.ev(s.value) if s.value is not None else None, s)
+        try:
+            res = _paths_lits(nf, cfg, mi, where, {p: Poly.atom(p, {p}, {p}) for p in param_names(fn)}, before=before)
+        except Exception:
+            kinds.setdefault("unknown", where)
+            continue
+        for pe, lits, pth in res:
+            v, at = rets.get(id(pe), (None, fn))
+            if v is None or v.canon() == "None":
+                k = "falsy"
+            elif v.is_const():
+                k = "truthy" if v.const_value() != 0 else "falsy"
+            else:
+                k = "unknown"
+            kinds.setdefault(k, f"{where} returns `{short(at.value, 40) if isinstance(at, ast.Return) and at.value is not None else None}` ({loc(mi, at)})")
+    return kinds
+
+
+def _stops_early(repo, nf, site, name, stop_on):
+    """(ok, text): can a fan-out that stops at the first member whose result is true ('truthy') / false ('falsy') stop before the
+    last member?  Decided from the results the members' implementations return; undecided when those are not constants."""
+    kinds = _member_results(repo, nf, name)
+    other = "falsy" if stop_on == "truthy" else "truthy"
+    if stop_on in kinds:
+        return False, f"stops at the first member whose result is {'true' if stop_on == 'truthy' else 'false'}; {kinds[stop_on]}"
+    if kinds and set(kinds) <= {other}:
+        return True, f"never stops: every implementation returns a {'false' if other == 'falsy' else 'true'} value ({kinds[other]})"
+    raise AnalysisError(f"{site}: the fan-out stops at the first {'true' if stop_on == 'truthy' else 'false'} result, and what the members return is not a constant: {kinds.get('unknown', 'no implementation found')} (unrecognised form)")
+
+
+def _loop_exits(cfg, lp, call_node, call):
+    """[(exit node, 'always' | 'truthy' | 'falsy')]: the break / return statements that leave the member loop ``lp``, and under which
+    result of the member call they are taken.  An exit under any other condition is undecided."""
+    out = []
+    for x in cfg.nodes:
+        if x.kind != "stmt" or not isinstance(x.ast, (ast.Break, ast.Return)) or lp.id not in cfg.enclosing_loops(x.id):
+            continue
+        if isinstance(x.ast, ast.Break) and cfg.enclosing_loops(x.id)[0] != lp.id:
+            continue      # leaves an inner loop only
+        anc = getattr(x.ast, "_parent", None)
+        while anc is not None and anc is not lp.ast:
+            if not isinstance(anc, (ast.If, ast.For, ast.While)):
+                raise AnalysisError(f"the loop over the members is left by `{short(x.ast, 30)}` inside `{type(anc).__name__.lower()}` (unrecognised form)")
+            anc = getattr(anc, "_parent", None)
+        deps = cfg.control_deps(x.id)
+        inner = deps[:[b for b, _ in deps].index(lp.id)]
+        if not inner:
+            out.append((x, "always"))
+            continue
+        b, lab = inner[0]
+        t = cfg.nodes[b].ast.test if len(inner) == 1 and isinstance(cfg.nodes[b].ast, ast.If) and lab in (True, False) else None
+        while isinstance(t, ast.UnaryOp) and isinstance(t.op, ast.Not):
+            t, lab = t.operand, not lab
+        if isinstance(t, ast.Call) and isinstance(t.func, ast.Name) and t.func.id == "bool" and len(t.args) == 1 and not t.keywords:
+            t = t.args[0]
+        if isinstance(t, ast.Name):
+            ds = cfg.defs_of(b, t.id)
+            t = ds[0].value if len(ds) == 1 and ds[0].kind == "assign" and not ds[0].path and ds[0].node == call_node.id else None
+        if t is not call:
+            raise AnalysisError(f"the loop over the members is left by `{short(x.ast, 30)}` under a condition that is not the member's result (unrecognised form)")
+        out.append((x, "truthy" if lab else "falsy"))
+    return out
+
+
+def _call_short_circuit(cfg, lp, n, c):
+    """None when the member call ``c`` is evaluated whenever its statement (node n, in the member loop lp) is; 'truthy' / 'falsy' when
+    it is the right operand of `acc or <call>` / `acc and <call>` with acc accumulating the members' results (initialised with a false /
+    true constant before the loop): the call is skipped once a member returned a true / false value.  Other conditional positions
+    (conditional expressions, lambdas, other operands) are undecided."""
+    mode, x, par = None, c, getattr(c, "_parent", None)
+    while par is not None and not isinstance(par, ast.stmt):
+        if isinstance(par, ast.BoolOp) and par.values[0] is not x:
+            left = par.values[:[i for i, v in enumerate(par.values) if v is x][0]]
+            want_init = 0 if isinstance(par.op, ast.Or) else 1
+            for a in left:
+                ds = cfg.defs_of(n.id, a.id) if isinstance(a, ast.Name) else []
+                own = [d for d in ds if d.node == n.id]
+                init = [d for d in ds if d.node != n.id]
+                if not own or len(init) != 1 or init[0].kind != "assign" or init[0].path or lp.id in cfg.enclosing_loops(init[0].node) \
+                        or not (isinstance(init[0].value, ast.Constant) and isinstance(init[0].value.value, (bool, int)) and bool(init[0].value.value) == bool(want_init)):
+                    raise AnalysisError(f"the member call is the right operand of `{short(par, 50)}` (unrecognised form)")
+            if mode is not None:
+                raise AnalysisError(f"the member call is nested in several boolean operations (unrecognised form)")
+            mode = "truthy" if isinstance(par.op, ast.Or) else "falsy"
+        elif (isinstance(par, ast.IfExp) and par.test is not x) or isinstance(par, (ast.Lambda, ast.ListComp, ast.SetComp, ast.DictComp, ast.GeneratorExp)):
+            raise AnalysisError(f"the member call is evaluated conditionally in `{short(par, 50)}` (unrecognised form)")
+        x, par = par, getattr(par, "_parent", None)
+    if mode is not None:
+        st = par
+        tg = st.targets if isinstance(st, ast.Assign) else [st.target] if isinstance(st, (ast.AnnAssign, ast.AugAssign)) else []
+        if not (len(tg) == 1 and isinstance(tg[0], ast.Name)):
+            raise AnalysisError(f"the member call is the right operand of a boolean operation in `{short(st, 50)}` (unrecognised form)")
+    return mode
 
 
 def _signature_compatible(fn, bm, site):
@@ -260,25 +441,58 @@ def _fan_out(ck, repo, nf):
         in_loop = lambda n, c, lp: c.func.value.id == lp.ast.target.id and lp.id in cfg.enclosing_loops(n.id)
         calls_all = [(n, c) for n, c in calls if any(in_loop(n, c, lp) for lp in mloops if kinds[lp.id] == "all")]
         calls_part = [(n, c) for n, c in calls if any(in_loop(n, c, lp) for lp in mloops if kinds[lp.id] == "part")]
-        if not calls_all and not calls_part:
+        comps = _member_comprehensions(nf, cfg, mi, site, name)
+        if comps and (calls_all or calls_part or len(comps) != 1):
+            raise AnalysisError(f"{site}: members are called from several loops / comprehensions (unrecognised idiom)")
+        if not calls_all and not calls_part and not comps:
             if any(isinstance(x, (ast.Call, ast.For, ast.While, ast.ListComp, ast.GeneratorExp, ast.Lambda)) for x in ast.walk(fn)) or _mentions(fn, ("loggers",)):
                 raise AnalysisError(f"{site}: members are not reached through a loop over self.loggers (unrecognised idiom)")
             ck.ob("R1-fan-out", site, "loop-over-all-members", False, "the method calls nothing", "the method does not reach the members", loc(mi, fn))
             continue
         if calls_part and calls_all:
             raise AnalysisError(f"{site}: members are called from several loops (unrecognised idiom)")
-        lp = next(l for l in mloops if in_loop(*(calls_all + calls_part)[0], l))
-        shown = f"for {lp.ast.target.id} in {short(lp.ast.iter, 40)}: .{name}(...)"
-        if calls_part:
-            ck.ob("R1-fan-out", site, "loop-over-all-members", False, shown, "the loop does not range over all of self.loggers: some members never receive the record", loc(mi, fn))
-            continue
-        if any(len(cfg.control_deps(n.id)) != 1 for n, c in calls_all) or cfg.control_deps(lp.id):
-            raise AnalysisError(f"{site}: the member call is conditional or nested (unrecognised idiom)")
-        okl = len(calls_all) == 1    # several unconditional calls in loops over all members: a member receives the record more than once
-        ck.ob("R1-fan-out", site, "loop-over-all-members", okl, shown, "" if okl else "every member must receive the call exactly once", loc(mi, fn))
-        if not okl:
-            continue
-        n, c = calls_all[0]
+        if comps:
+            n, comp, c, kind, consumer = comps[0]
+            g = comp.generators[0]
+            shown = f"{consumer + '(' if consumer in ('any', 'all') else ''}.{name}(...) for {g.target.id} in {short(g.iter, 40)}{')' if consumer in ('any', 'all') else ''}"
+            okl = kind == "all"
+            ck.ob("R1-fan-out", site, "loop-over-all-members", okl, shown, "" if okl else "the comprehension does not range over all of self.loggers: some members never receive the record", loc(mi, fn))
+            if not okl:
+                continue
+            okd, how = (True, "the comprehension is evaluated for every member") if consumer == "eager" else _stops_early(repo, nf, site, name, "truthy" if consumer == "any" else "falsy")
+            ck.ob("R1-fan-out", site, "every-member-reached", okd, f"{shown}: {how}", "" if okd else f"`{consumer}` over a generator stops at the first {'true' if consumer == 'any' else 'false'} item: the members after it do not receive the call", loc(mi, comp))
+            if not okd:
+                continue
+        else:
+            lp = next(l for l in mloops if in_loop(*(calls_all + calls_part)[0], l))
+            shown = f"for {lp.ast.target.id} in {short(lp.ast.iter, 40)}: .{name}(...)"
+            if calls_part:
+                ck.ob("R1-fan-out", site, "loop-over-all-members", False, shown, "the loop does not range over all of self.loggers: some members never receive the record", loc(mi, fn))
+                continue
+            if any(len(cfg.control_deps(n.id)) != 1 for n, c in calls_all) or cfg.control_deps(lp.id):
+                raise AnalysisError(f"{site}: the member call is conditional or nested (unrecognised idiom)")
+            okl = len(calls_all) == 1    # several unconditional calls in loops over all members: a member receives the record more than once
+            ck.ob("R1-fan-out", site, "loop-over-all-members", okl, shown, "" if okl else "every member must receive the call exactly once", loc(mi, fn))
+            if not okl:
+                continue
+            n, c = calls_all[0]
+            # the loop is not left before the last member: a break / return in its body is a path on which the later members are skipped
+            try:
+                exits = [(x.ast, mode) for x, mode in _loop_exits(cfg, lp, n, c)]
+                sc_mode = _call_short_circuit(cfg, lp, n, c)
+            except AnalysisError as e:
+                raise AnalysisError(f"{site}: {e}")
+            if sc_mode is not None:
+                exits.append((n.ast, sc_mode))     # the call itself is skipped from then on
+            okd, how, at = True, "no break / return in the loop, the call is evaluated in every iteration", lp.ast
+            for xa, mode in exits:
+                okx, hx = (False, "left unconditionally after the first member") if mode == "always" else _stops_early(repo, nf, site, name, mode)
+                if not okx or okd:
+                    how, at = f"`{short(xa, 40)}`: {hx}", xa
+                okd = okd and okx
+            ck.ob("R1-fan-out", site, "every-member-reached", okd, f"{shown}; {how}", "" if okd else "the loop over the members is left early: the members after that point do not receive the call", loc(mi, at))
+            if not okd:
+                continue
         if any(isinstance(a_, ast.Starred) for a_ in c.args) or any(k.arg is None for k in c.keywords):
             raise AnalysisError(f"{site}: `{short(c, 60)}` forwards packed arguments (unrecognised form)")
         try:
@@ -356,18 +570,44 @@ def _container_events(cfg, attrs, kp, site):
     an alias definition or a read; anything else (the container escapes, another mutating method) is undecided."""
     events, aliases = {}, {}
 
-    def location(e, nid):
-        """(attr, index expr) when e denotes the list stored at self.<attr>[index]."""
-        e, at = _alias_value(cfg, nid, e)
+    def is_empty(v):
+        return (isinstance(v, (ast.List, ast.Tuple)) and not v.elts) or (isinstance(v, ast.Call) and isinstance(v.func, ast.Name) and v.func.id == "list" and not v.args and not v.keywords)
+
+    def location(e, nid, depth=0):
+        """(attr, index expr) when e denotes the list stored at self.<attr>[index]: the subscript, `setdefault(index, [])`, `get(index)`
+        (the entry when it exists), or a local name every reaching definition of which denotes that same entry (`x = self.a[k]`,
+        `x = self.a.get(k)`, and the creation `x = self.a[k] = []`, which binds the name to the list it stores)."""
+        if isinstance(e, ast.Name) and depth < 4:
+            found = []
+            for d in cfg.defs_of(nid, e.id):
+                if d.kind != "assign" or d.path or d.value is None:
+                    return None
+                st = cfg.nodes[d.node].ast
+                if isinstance(st, ast.Assign) and len(st.targets) > 1:
+                    subs = [t for t in st.targets if not isinstance(t, ast.Name)]
+                    if not (is_empty(st.value) and len(subs) == 1 and isinstance(subs[0], ast.Subscript)):
+                        return None
+                    where = location(subs[0], d.node, depth + 1)
+                else:
+                    where = location(d.value, d.node, depth + 1)
+                if where is None:
+                    return None
+                found.append(where)
+            if found and all(w[0] == found[0][0] and ast.dump(w[1]) == ast.dump(found[0][1]) for w in found):
+                return found[0]
+            return None
+        at = nid
         if isinstance(e, ast.Subscript) and not isinstance(e.slice, ast.Slice):
             b, _ = _alias_value(cfg, at, e.value)
             if _self_attr(b, attrs):
                 return b.attr, e.slice
         if isinstance(e, ast.Call) and isinstance(e.func, ast.Attribute) and e.func.attr == "setdefault" and len(e.args) == 2 and not e.keywords:
             b, _ = _alias_value(cfg, at, e.func.value)
-            d = e.args[1]
-            empty = (isinstance(d, (ast.List, ast.Tuple)) and not d.elts) or (isinstance(d, ast.Call) and isinstance(d.func, ast.Name) and d.func.id == "list" and not d.args)
-            if _self_attr(b, attrs) and empty:
+            if _self_attr(b, attrs) and is_empty(e.args[1]):
+                return b.attr, e.args[0]
+        if isinstance(e, ast.Call) and isinstance(e.func, ast.Attribute) and e.func.attr == "get" and not e.keywords and (len(e.args) == 1 or (len(e.args) == 2 and isinstance(e.args[1], ast.Constant) and e.args[1].value is None)):
+            b, _ = _alias_value(cfg, at, e.func.value)
+            if _self_attr(b, attrs):
                 return b.attr, e.args[0]
         return None
 
@@ -387,7 +627,7 @@ def _container_events(cfg, attrs, kp, site):
             if _mentions(s, attrs):
                 raise AnalysisError(f"{site}: the recorded containers are used in a nested function (unrecognised form)")
             continue
-        names = {x.id for x in ast.walk(root) if isinstance(x, ast.Name) and isinstance(x.ctx, ast.Load) and x.id in aliases}
+        names = {x.id for x in ast.walk(root) if isinstance(x, ast.Name) and (isinstance(x.ctx, ast.Load) or (isinstance(s, ast.AugAssign) and x is s.target)) and x.id in aliases}
         if not _mentions(root, attrs) and not names:
             continue
         is_c = lambda x: _self_attr(x, attrs) or (isinstance(x, ast.Name) and x.id in aliases and isinstance(x.ctx, ast.Load))
@@ -410,6 +650,12 @@ def _container_events(cfg, attrs, kp, site):
                 continue   # creation of the empty entry
         elif n.kind == "stmt" and isinstance(s, ast.Assign) and len(s.targets) == 1 and isinstance(s.targets[0], ast.Name) and location(s.value, n.id) is not None:
             aliases[s.targets[0].id] = n.id   # series = self.stats[key]
+            continue
+        elif n.kind == "stmt" and isinstance(s, ast.Assign) and len(s.targets) > 1 and is_empty(s.value) and sum(isinstance(t, ast.Subscript) and location(t, n.id) is not None for t in s.targets) == 1 \
+                and all(isinstance(t, ast.Name) or (isinstance(t, ast.Subscript) and location(t, n.id) is not None) for t in s.targets):
+            for t in s.targets:
+                if isinstance(t, ast.Name):
+                    aliases[t.id] = n.id      # series = self.stats[key] = []: creation of the empty entry, bound to a local name as well
             continue
         elif n.kind == "stmt" and isinstance(s, ast.Expr) and isinstance(s.value, ast.Call) and isinstance(s.value.func, ast.Attribute) and s.value.func.attr == "setdefault" and location(s.value, n.id) is not None:
             continue   # self.stats.setdefault(key, []) for its effect: creation of the empty entry
@@ -780,6 +1026,31 @@ def _not_cadence(c) -> bool:
     return False
 
 
+def _one_sided(nf, e, sc, at):
+    """A rebuilt copy of the boolean expression ``e`` (and / or / not over comparisons) in which every order comparison  a < b  (<=, >,
+    >=) is written as  d < 0  with d = a - b or b - a, whichever normal form sorts first:  s - l >= f,  s >= l + f  and  l + f <= s
+    are then one and the same comparison for the truth-table model.  The original nodes are shared, never modified."""
+    flip = {ast.Lt: ast.Gt, ast.LtE: ast.GtE, ast.Gt: ast.Lt, ast.GtE: ast.LtE}
+    if isinstance(e, ast.BoolOp):
+        return ast.BoolOp(op=e.op, values=[_one_sided(nf, v, sc, at) for v in e.values])
+    if isinstance(e, ast.UnaryOp) and isinstance(e.op, ast.Not):
+        return ast.UnaryOp(op=e.op, operand=_one_sided(nf, e.operand, sc, at))
+    if isinstance(e, ast.Compare) and len(e.ops) == 1 and type(e.ops[0]) in flip:
+        a, b = e.left, e.comparators[0]
+        d1, d2 = ast.BinOp(left=a, op=ast.Sub(), right=b), ast.BinOp(left=b, op=ast.Sub(), right=a)
+        for d in (d1, d2):
+            ast.copy_location(d, e)
+        try:
+            c1, c2 = nf.poly(d1, sc, at).canon(), nf.poly(d2, sc, at).canon()
+        except Exception:
+            return e
+        if _unread(c1) or _unread(c2):
+            return e
+        out = ast.Compare(left=d1, ops=[e.ops[0]], comparators=[ast.Constant(value=0)]) if c1 <= c2 else ast.Compare(left=d2, ops=[flip[type(e.ops[0])]()], comparators=[ast.Constant(value=0)])
+        return ast.copy_location(out, e)
+    return e
+
+
 def _cadence_orbax(ck, repo, nf):
     from ..sem import bool_equiv
     fn = _mi(repo, OC, "record_epoch")
@@ -825,6 +1096,12 @@ def _cadence_orbax(ck, repo, nf):
     want = parse_expr(f"({kp} in self.checkpoint_frequencies) and ((self.last_step[{kp}] % self.checkpoint_frequencies[{kp}] > {sp} % self.checkpoint_frequencies[{kp}]) or ({sp} - self.last_step[{kp}] >= self.checkpoint_frequencies[{kp}]))")
     ast.fix_missing_locations(got)
     eq = bool_equiv(nf, mi, got, want, cfg1=cfg, at1=sn.id, opaque1=set(names))
+    if eq is None:
+        # the same comparisons with their terms on other sides (step >= last + f for step - last >= f)
+        sc1, sc2 = Scope(cfg, mi, {}, "b1"), Scope(None, mi, {}, "b2")
+        sc1.opaque_names = set(names)
+        got1, want1 = ast.fix_missing_locations(_one_sided(nf, got, sc1, sn.id)), ast.fix_missing_locations(_one_sided(nf, want, sc2, None))
+        eq = bool_equiv(nf, mi, got1, want1, cfg1=cfg, at1=sn.id, opaque1=set(names))
     if eq is None:
         raise AnalysisError(f"{site}: the condition of the checkpoint `{short(got, 120)}` is built from other comparisons than the documented wrap-or-gap test: equivalence not decidable here")
     ck.ob("R5-cadence", site, "wrap-or-gap-predicate", eq, f"save iff {short(got, 150)}", "" if eq else f"documented predicate: registered key and (last % f > step % f or step - last >= f); the truth tables differ", loc(mi, scall))
@@ -906,6 +1183,79 @@ def _cadence_orbax_state(ck, repo, nf):
     ck.ob("R5-cadence", OC + ".define_checkpoint_frequency", "initial-state", not bad, f"{shown}", "" if not bad else f"registration must initialise interval, an empty path list and last step 0: {bad[:2]}", loc(fn2._module, fn2))
 
 
+def _cadence_threshold(ck, repo, nf):
+    """A cadence written as a lower bound on the recorded step (`save when step >= E(state)`) can only be right when the state it reads
+    is advanced, on the save path, to something that depends on the recorded step: when the new state E' is a function of the old state
+    alone, a record with step >= max(E, E') writes a checkpoint and a repetition of that record (same step: no multiple of the interval
+    was passed) writes another one.  Decided as a dataflow fact of the per-path normal forms; the rule is silent when the guard is not
+    such a bound, and does not try to decide a threshold that does depend on the step (integer arithmetic)."""
+    fn = _mi(repo, OC, "record_epoch")
+    mi = fn._module
+    cfg = nf.cfg_of(fn)
+    site = OC + ".record_epoch"
+    names = param_names(fn)
+    if len(names) < 5 or fn.args.vararg or fn.args.kwarg:
+        return
+    kp, sp = names[1], names[4]    # roles by position in the signature
+    saves = _self_calls(nf, cfg, mi, "self", "_save_checkpoint") or _self_calls(nf, cfg, mi, "self", "save_model")
+    if len(saves) != 1 or cfg.enclosing_loops(saves[0][0].id):
+        return
+    sid = saves[0][0].id
+    try:
+        res = _paths_lits(nf, cfg, mi, site, {p: Poly.atom(p, {p}, {p}) for p in names})
+    except AnalysisError:
+        return
+    REG = f"In({kp}, self.checkpoint_frequencies)"
+    NONE_TESTS = {f"Is({sp}, None)", f"Is(None, {sp})", f"IsNot({sp}, None)", f"IsNot(None, {sp})", f"not(Is({sp}, None))", f"not(Is(None, {sp}))"}
+    seen = set()
+    for pe, lits, pth in res:
+        if not any(nid == sid for nid, _ in pth) or sp not in pe.env or pe.env[sp].canon() != sp:
+            continue       # paths that save a record with an explicitly given step
+        bounds = []
+        for l in lits:
+            op = "LtE" if l.startswith("LtE(") else "Lt" if l.startswith("Lt(") else None
+            parts = _split_top(l[len(op) + 1:-1]) if op and l.endswith(")") else []
+            if len(parts) == 2 and parts[1] == sp and sp not in _toks(parts[0]):
+                bounds.append((op, parts[0]))
+        if len(bounds) != 1:
+            return
+        op, E = bounds[0]
+        attrs = set(re.findall(rf"self\.(\w+)\[{re.escape(kp)}\]", E)) - {"checkpoint_frequencies"}
+        if not attrs or _unread(E) or not _built_from(E, attrs | {"checkpoint_frequencies", kp}, ops={"self"}):
+            return
+        about = attrs | {sp, "n_steps", "checkpoint_frequencies"}
+        if any(_toks(l) & about for l in lits if l not in NONE_TESTS and l != REG and l != f"{op}({E}, {sp})"):
+            return         # the save depends on the step / the state in another way as well
+        new = tuple(sorted((a, (pe.store[f"self.{a}[{kp}]"].canon() if f"self.{a}[{kp}]" in pe.store else f"self.{a}[{kp}]")) for a in attrs))
+        seen.add((op, E, new))
+    if len(seen) != 1:
+        return             # no such path, or the paths do not agree
+    (op, E, new), = seen
+    attrs = {a for a, _ in new}
+    if any(_unread(v) or not _built_from(v, attrs | {"checkpoint_frequencies", "epoch", kp}, ops={"self"}) for _, v in new):
+        return             # the new state involves the step (or something that is not read): not decided here
+    # every write of the state was seen: it is written by subscript stores of this method only
+    par = {}
+    for p in ast.walk(fn):
+        for ch in ast.iter_child_nodes(p):
+            par[id(ch)] = p
+    for x in ast.walk(fn):
+        if _self_attr(x, attrs) and not (isinstance(par.get(id(x)), ast.Subscript) and par[id(x)].value is x and not isinstance(par[id(x)].slice, ast.Slice)):
+            raise AnalysisError(f"{site}: the cadence state `{short(x, 40)}` is used as a whole (unrecognised form)")
+    if any(isinstance(x, (ast.FunctionDef, ast.Lambda, ast.Try, ast.While, ast.For)) for st in fn.body for x in ast.walk(st)):
+        raise AnalysisError(f"{site}: the cadence state may be written in a nested function / handler / loop (unrecognised form)")
+    if _opaque_self_calls(nf, cfg, mi, {("self", "_save_checkpoint"), ("self", "save_model")}) or any(
+            isinstance(x, ast.Call) and any(isinstance(a_, ast.Name) and a_.id == "self" for a_ in list(x.args) + [k.value for k in x.keywords]) for x in ast.walk(fn)):
+        raise AnalysisError(f"{site}: a method / function called from here may write the cadence state (unrecognised form)")
+    for oc, meth in _class_methods(repo, OC):
+        if meth.name not in ("record_epoch", "__init__", "define_checkpoint_frequency") and _mentions(meth, attrs):
+            raise AnalysisError(f"{site}: the cadence state is also used by {meth.name} (unrecognised form)")
+    shown = f"save iff {E} {'<=' if op == 'LtE' else '<'} {sp}; then " + ", ".join(f"{a}[{kp}]' = {v}" for a, v in new)
+    ck.ob("R5-cadence", site, "due-threshold-follows-step", False, shown,
+          f"the state the bound reads is advanced to a value that does not depend on the recorded step: a record whose {sp} is at least both the old and the new bound writes a checkpoint, and a second record with the same {sp} "
+          "(no multiple of the interval was passed since the previous record) writes another one; after a write the bound must exceed the recorded step", loc(mi, saves[0][1]))
+
+
 def _cadence_standard(ck, repo, nf):
     # StandardLogger: the counter is advanced exactly once per record, the checkpoint is written iff the key is registered and the
     # advanced counter is a multiple of the interval
@@ -946,6 +1296,19 @@ def _cadence_standard(ck, repo, nf):
     due = {f"Eq(0, mod(1 + {EP}, {F}))", f"not(mod(1 + {EP}, {F}))"}
     not_due = {f"NotEq(0, mod(1 + {EP}, {F}))", f"mod(1 + {EP}, {F})"}
     ING = {"epoch", "checkpoint_frequencies", kp}
+    GETS = [f"self.checkpoint_frequencies.get({kp}{d})" for d in ("", ", None", ", 0")]
+
+    def registered_by_get(l):
+        """The interval looked up with `.get(key)`: it is the interval of a registered key, and None (0 with that default) - false, and
+        not None - exactly for an unregistered one (intervals are integers >= 1: quantification of the property)."""
+        for g in GETS:
+            if l in (g, f"IsNot(None, {g})", f"IsNot({g}, None)", f"not(Is(None, {g}))", f"not(Is({g}, None))") and not (l != g and g.endswith(", 0)")):
+                return f"In({kp}, self.checkpoint_frequencies)"
+            if l in (f"not({g})", f"Is(None, {g})", f"Is({g}, None)") and not (l != f"not({g})" and g.endswith(", 0)")):
+                return f"NotIn({kp}, self.checkpoint_frequencies)"
+        for g in GETS:
+            l = l.replace(g, F)
+        return l
     bad_inc, bad_save, unread = [], [], []
     for pe, lits, pth in res:
         newc = pe.store.get(EP)
@@ -963,7 +1326,7 @@ def _cadence_standard(ck, repo, nf):
             else:
                 bad_inc.append((c, want_c))
         n_saves = sum(1 for nid, lab in pth if nid in save_ids)
-        dl = [l.replace("mod(1, ", f"mod(1 + {EP}, ") if first else l for l in lits]
+        dl = [registered_by_get(l.replace("mod(1, ", f"mod(1 + {EP}, ") if first else l) for l in lits]
         is_reg, is_unreg = any(l in reg for l in dl), any(l in unreg for l in dl)
         is_due, is_not_due = any(l in due for l in dl), any(l in not_due for l in dl)
         # literals about the counter / the interval in another form
@@ -989,7 +1352,7 @@ def _cadence_standard(ck, repo, nf):
 
 def run(ck, repo: Repo, tier: str):
     nf = NF(repo, inline_depth=1, inline_calls=False)
-    for group in (_fan_out, _record_get, _counters, _save_then_list, _save_model_waits, _cadence_orbax, _cadence_orbax_state, _cadence_standard):
+    for group in (_fan_out, _record_get, _counters, _save_then_list, _save_model_waits, _cadence_orbax, _cadence_orbax_state, _cadence_threshold, _cadence_standard):
         ck.guard(group, ck, repo, nf)
     ck.guard(_instance_state, ck, repo)
 
@@ -1050,4 +1413,92 @@ BENIGN = [
     {"id": "c20-b-standard-swapped-test", "file": _L, "edits": [("        if (\n            key in self.checkpoint_frequencies\n            and self.epoch[key] % self.checkpoint_frequencies[key] == 0\n        ):\n            self._save_checkpoint(key, value)\n", "        if (\n            key not in self.checkpoint_frequencies\n            or self.epoch[key] % self.checkpoint_frequencies[key] != 0\n        ):\n            pass\n        else:\n            self._save_checkpoint(key=key, value=value)\n"),
                                                                 ("        if key not in self.epoch:\n            self.epoch_loc[key] = []\n            self.epoch[key] = 0\n            self.lpad_keys = max(self.lpad_keys, len(key))\n", "        if key not in self.epoch_loc:\n            self.epoch_loc[key] = []\n            self.epoch[key] = 0\n            self.lpad_keys = max(self.lpad_keys, len(key))\n"),
                                                                 ("        self.epoch[key] += 1\n        if self.verbose:", "        count = self.epoch[key] = self.epoch[key] + 1\n        assert count > 0\n        if self.verbose:")]},
+]
+
+# ---------------------------------------------------------------------------------------------------------------------------
+# overlays for: fan-out through comprehensions / early exits (R1 every-member-reached), record_stat through `.get` + chained creation
+# (R2), the interval looked up with `.get` (R5 standard), a cadence written as a bound on the step (R5 due-threshold-follows-step)
+_FAN_STOP = "        for logger in self.loggers:\n            logger.stop_episode(total_steps)"
+_FAN_START = "        for logger in self.loggers:\n            logger.start_new_episode()"
+_FAN_EPOCH = "        for logger in self.loggers:\n            logger.record_epoch(key, value, episode, step, t)"
+_STD_SAVE = """        if (
+            key in self.checkpoint_frequencies
+            and self.epoch[key] % self.checkpoint_frequencies[key] == 0
+        ):
+            self._save_checkpoint(key, value)
+"""
+_MEM_RECORD = """        if key not in self.stats:
+            self.stats_loc[key] = []
+            self.stats[key] = []
+        if episode is None:
+            episode = self._n_episodes
+        if step is None:
+            step = self.n_steps
+        if t is None:
+            t = time.time() - self.start_time
+        self.stats_loc[key].append((episode, step, t))
+        self.stats[key].append(value)
+
+    def get_stat"""
+
+
+def _mem_record(lookup, record):
+    return lookup + """        if episode is None:
+            episode = self._n_episodes
+        if step is None:
+            step = self.n_steps
+        if t is None:
+            t = time.time() - self.start_time
+""" + record + "\n    def get_stat"
+
+
+_MEM_LOOKUP = """        series = self.stats.get(key)
+        if series is None:
+            where = self.stats_loc[key] = []
+            series = self.stats[key] = list()
+        else:
+            where = self.stats_loc[key]
+"""
+_ORBAX_CADENCE = """        if key in self.checkpoint_frequencies:
+            # check if the step counter wrapped around as we cannot rely on
+            # x % y == 0 because of delayed updates (e.g., for the policy)
+            if (
+                self.last_step[key] % self.checkpoint_frequencies[key]
+                > step % self.checkpoint_frequencies[key]
+            ) or (
+                (step - self.last_step[key]) >= self.checkpoint_frequencies[key]
+            ):
+                self._save_checkpoint(key, value, step)
+
+        self.last_step[key] = step
+"""
+_ORBAX_INIT = ("        self.last_step[key] = 0\n", "        self.last_step[key] = checkpoint_interval\n")
+MUTANTS += [
+    {"id": "c20-list-all-of-none", "file": _L, "rule": "R1", "find": _FAN_STOP, "replace": "        all(member.stop_episode(total_steps) for member in self.loggers)"},
+    {"id": "c20-list-break-after-first", "file": _L, "rule": "R1", "find": _FAN_START, "replace": _FAN_START + "\n            break"},
+    {"id": "c20-list-stops-at-false-result", "file": _L, "rule": "R1", "find": _FAN_STOP, "replace": "        for member in self.loggers:\n            done = member.stop_episode(total_steps)\n            if not done:\n                return done"},
+    {"id": "c20-list-first-saver-wins", "file": _L, "rule": "R1", "edits": [(_STD_SAVE, _STD_SAVE + "            return True\n        return False\n"), (_FAN_EPOCH, "        for member in self.loggers:\n            if member.record_epoch(key, value, episode, step, t):\n                return True\n        return False")]},
+    {"id": "c20-list-any-saver", "file": _L, "rule": "R1", "edits": [(_STD_SAVE, _STD_SAVE + "            return True\n        return False\n"), (_FAN_EPOCH, "        saved = any(m.record_epoch(key, value, episode, step, t) for m in tuple(self.loggers))\n        return saved")]},
+    {"id": "c20-list-accumulator-and", "file": _L, "rule": "R1", "find": _FAN_STOP, "replace": "        fine = True\n        for member in self.loggers:\n            fine = fine and member.stop_episode(total_steps)\n        return fine"},
+    {"id": "c20-list-accumulator-or-saver", "file": _L, "rule": "R1", "edits": [(_STD_SAVE, _STD_SAVE + "            return True\n        return False\n"), (_FAN_EPOCH, "        hit = False\n        for member in self.loggers:\n            hit = hit or member.record_epoch(key, value, episode, step, t)\n        return hit")]},
+    {"id": "c20-list-comprehension-tail", "file": _L, "rule": "R1", "find": _FAN_STOP, "replace": "        [member.stop_episode(total_steps) for member in self.loggers[1:]]"},
+    {"id": "c20-list-comprehension-constant", "file": _L, "rule": "R1", "find": _FAN_STOP, "replace": "        return [member.stop_episode(1) for member in self.loggers]"},
+    {"id": "c20-memory-get-skips-first-value", "file": _L, "rule": "R2", "find": _MEM_RECORD, "replace": _mem_record(_MEM_LOOKUP, "        where.append((episode, step, t))\n        if series:\n            series.append(value)\n")},
+    {"id": "c20-memory-get-tuple-order", "file": _L, "rule": "R2", "find": _MEM_RECORD, "replace": _mem_record(_MEM_LOOKUP, "        where.append((step, episode, t))\n        series.append(value)\n")},
+    {"id": "c20-standard-get-not-due", "file": _L, "rule": "R5", "find": _STD_SAVE, "replace": "        every = self.checkpoint_frequencies.get(key)\n        if every is not None and self.epoch[key] % every != 0:\n            self._save_checkpoint(key, value)\n"},
+    {"id": "c20-orbax-due-plus-interval", "file": _C, "rule": "R5", "edits": [(_ORBAX_CADENCE, "        if key not in self.checkpoint_frequencies:\n            return\n        due = self.last_step[key]\n        if step < due:\n            return\n        self._save_checkpoint(key, value, step)\n        self.last_step[key] = due + self.checkpoint_frequencies[key]\n"), _ORBAX_INIT]},
+    {"id": "c20-orbax-gap-as-bound-strict", "file": _C, "rule": "R5", "find": _ORBAX_CADENCE, "replace": "        if key in self.checkpoint_frequencies:\n            every = self.checkpoint_frequencies[key]\n            before = self.last_step[key]\n            if before + every < step or before % every > step % every:\n                self._save_checkpoint(key, value, step)\n        self.last_step[key] = step\n"},
+    {"id": "c20-orbax-save-counter", "file": _C, "rule": "R5", "find": _ORBAX_CADENCE, "replace": "        if key in self.checkpoint_frequencies and step >= (self.last_step[key] + 1) * self.checkpoint_frequencies[key]:\n            self._save_checkpoint(key, value, step)\n            self.last_step[key] += 1\n"},
+]
+BENIGN += [
+    {"id": "c20-b-list-comprehensions", "file": _L, "edits": [(_FAN_START, "        [member.start_new_episode() for member in self.loggers]"), (_FAN_STOP, "        _ = list(m.stop_episode(total_steps=total_steps) for m in self.loggers)"), (_FAN_EPOCH, "        members = tuple(self.loggers)\n        results = [m.record_epoch(key, value, episode, step=step, t=t) for m in members]\n        return None if results else None")]},
+    {"id": "c20-b-list-any-of-none", "file": _L, "edits": [(_FAN_STOP, "        any(m.stop_episode(total_steps) for m in self.loggers)"), (_FAN_START, "        for member in self.loggers:\n            if member.start_new_episode():\n                break\n        return None")]},
+    {"id": "c20-b-list-accumulators", "file": _L, "edits": [(_STD_SAVE, _STD_SAVE + "            return True\n        return False\n"), (_FAN_EPOCH, "        hit = False\n        for member in self.loggers:\n            hit = member.record_epoch(key, value, episode, step, t) or hit\n        return hit"),
+                                                          (_FAN_STOP, "        seen = False\n        for member in self.loggers:\n            seen = seen or member.stop_episode(total_steps)\n        return None")]},
+    {"id": "c20-b-list-inner-break-and-other-comprehension", "file": _L, "find": _FAN_STOP, "replace": "        kinds = [type(m).__name__ for m in self.loggers]\n        assert len(kinds) == len(self.loggers)\n        for m in self.loggers:\n            for _ in range(1):\n                break\n            m.stop_episode(total_steps)"},
+    {"id": "c20-b-memory-get-and-chained-creation", "file": _L, "find": _MEM_RECORD, "replace": _mem_record(_MEM_LOOKUP, "        where.append((episode, step, t))\n        series.append(value)\n")},
+    {"id": "c20-b-memory-get-inverted", "file": _L, "find": _MEM_RECORD, "replace": _mem_record("        series = self.stats.get(key, None)\n        if series is not None:\n            where = self.stats_loc.get(key)\n        else:\n            series = self.stats[key] = []\n            where = self.stats_loc[key] = []\n", "        series.append(value)\n        where += [(episode, step, t)]\n")},
+    {"id": "c20-b-standard-interval-by-get", "file": _L, "find": _STD_SAVE, "replace": "        every = self.checkpoint_frequencies.get(key)\n        if every is None:\n            return\n        if self.epoch[key] % every != 0:\n            return\n        self._save_checkpoint(key, value)\n"},
+    {"id": "c20-b-standard-interval-by-get-default", "file": _L, "find": _STD_SAVE, "replace": "        every = self.checkpoint_frequencies.get(key, 0)\n        if every and not self.epoch[key] % every:\n            self._save_checkpoint(key, value)\n"},
+    {"id": "c20-b-orbax-gap-as-bound", "file": _C, "find": _ORBAX_CADENCE, "replace": "        if key in self.checkpoint_frequencies:\n            every = self.checkpoint_frequencies[key]\n            before = self.last_step[key]\n            if step >= before + every or before % every > step % every:\n                self._save_checkpoint(key, value, step)\n        self.last_step[key] = step\n"},
 ]
